@@ -141,6 +141,50 @@ class _LogCount(logging.Handler):
         self.n += 1
 
 
+class _Registry(dict):
+    """A device registry used as the callback: a dict subclass (empty, hence falsy, when the bridge is built) that is callable."""
+
+    def __init__(self, sink):
+        super().__init__()
+        self._sink = sink
+
+    def __call__(self, dev):
+        self[getattr(dev, "device_id", None)] = dev
+        return self._sink(dev)
+
+
+class _Listener:
+    """A listener object with a length (no device seen yet: falsy) and a __call__."""
+
+    def __init__(self, sink):
+        self._sink = sink
+        self.seen = []
+
+    def __len__(self):
+        return len(self.seen)
+
+    def __call__(self, dev):
+        try:
+            return self._sink(dev)
+        finally:
+            self.seen.append(dev)
+
+
+def callback_shape(kind: int, sink):
+    """The user's callback is any callable: a bound method, a function, a partial, a callable container, a listener object."""
+    import functools
+    k = kind % 5
+    if k == 0:
+        return sink
+    if k == 1:
+        return lambda dev: sink(dev)
+    if k == 2:
+        return functools.partial(sink)
+    if k == 3:
+        return _Registry(sink)
+    return _Listener(sink)
+
+
 class BridgeRun:
     def __init__(self, scn: dict):
         self.scn = scn
@@ -228,12 +272,13 @@ class BridgeRun:
         scn = self.scn
         ports = list(scn["ports"])
         self.log(ev="Types", known=live_types())
-        bridge = SwitcherBridge(self.on_device, ports)
+        shape = scn.get("cb", scn.get("tid", 0))
+        bridge = SwitcherBridge(callback_shape(shape, self.on_device), ports)
         self.bridges = [bridge]
         self.owned: list[set] = [set()]
         self.log(ev="New", br=1, ports=ports)
         if "ports2" in scn:
-            self.bridges.append(SwitcherBridge(self.on_device2, list(scn["ports2"])))
+            self.bridges.append(SwitcherBridge(callback_shape(shape + 2, self.on_device2), list(scn["ports2"])))
             self.owned.append(set())
             self.log(ev="New", br=2, ports=list(scn["ports2"]))
         allports = sorted(set(ports) | set(scn.get("ports2", [])) | set(scn.get("extra_ports", [])))
